@@ -528,6 +528,11 @@ def search(run, r, plain, asan, W, quick, report_death, check_survivors_search, 
         v = r.choice(values)
         txt = L.mutate(root, blk, kw, v, first_only=(r.random() < 0.2))
         label = (path[-1][0] if path else "module")
+        # signature label: the kind of object, not the particular component type or group key
+        if label.startswith("cvc:"):
+            label = "cvc"
+        elif label.startswith("group:"):
+            label = "group"
         if r.random() < 0.25:
             # a random pair: a second invalid value somewhere else in the same configuration
             name2, path2, kw2 = r.choice([u for u in universe if u[0] == name])
